@@ -1,6 +1,7 @@
 """Check driver: one Run per (property, tier). A Run collects exhaustive TLC
 runs of the bounded design models, scripts (TLC-exported, generated, replay),
 executes them on the real code and lets TLC validate the traces."""
+import hashlib
 import json
 import os
 import sys
@@ -72,6 +73,12 @@ class Run:
         """Executes the episodes on the real code and validates the trace."""
         if not episodes:
             return
+        CH = 60000      # bounded memory: very large batches (TLC exports of the thorough tier) go in chunks
+        if len(episodes) > CH:
+            for k in range(0, len(episodes), CH):
+                self.batch("%s.%d" % (name, k // CH), trace_spec, episodes[k:k + CH], profile=profile, shards=shards,
+                           nontrivial=nontrivial, env=env, wall_timeout=wall_timeout, cfg=cfg, jobs=jobs)
+            return
         shards = int(os.environ.get("VERIF_SHARDS", shards))
         exe = core.build_harness(profile)
         sp = self.work / (name + ".script.ndjson")
@@ -113,7 +120,7 @@ class Run:
         for epi in episodes:
             self.by_src[epi.get("src", "?")] = self.by_src.get(epi.get("src", "?"), 0) + 1
             if nontrivial is None or nontrivial(epi):
-                self.nontrivial.add(json.dumps(epi.get("ops", epi), sort_keys=True)[:4000])
+                self.nontrivial.add(hashlib.sha1(json.dumps(epi.get("ops", epi), sort_keys=True).encode()).digest()[:10])
         if len(self.samples) < 3:
             small = sorted(episodes, key=lambda x: len(json.dumps(x)))
             pick = small[len(small) // 2]
